@@ -72,4 +72,10 @@ def generate(tier, seed):
         n = "c15_wire__char_utf8len%d" % k
         src.append(fn(n, "    wire_char::<%d>();" % k))
         hs.append(H(n, "wire: char with %d-byte UTF-8 -> binary -> decode -> from_term::<char>" % k))
+    for n_el in (0, 1):
+        for opt in (False, True):
+            n = "c15_wire__%sseq_len%d" % ("option_" if opt else "", n_el)
+            src.append(fn(n, "    wire_seq(%d, %s);" % (n_el, "true" if opt else "false")))
+            hs.append(H(n, "wire: %s of %d element(s) (NIL_EXT / LIST_EXT) -> decode -> from_term gives it back; Some(empty) is not None"
+                        % ("Option<Vec<u8>>" if opt else "Vec<u8>", n_el)))
     return "\n".join(src), hs
